@@ -9,6 +9,7 @@ import Shm.Crypto.More
 import Shm.Crypto.DES
 import Shm.Crypto.MD5
 import Shm.Crypto.RsaPad
+import Shm.Crypto.Ecc
 import Shm.Proto
 namespace Shm.CryptoMon
 open Shm Shm.Crypto
@@ -155,16 +156,19 @@ def refVerify (o : MonOp) (sig : Bytes) : Option Bool := do
       | some (name, hf) => if [0x6, 0x46, 0x40, 0x41, 0x42].contains o.mech then (emsaPkcs1 (digestInfoPrefix name ++ hf o.inp) k).map (· == em) else none
       | none => none
   else if kt == CKK.EC && o.mech == 0x1041 then
+    -- ECDSA over any named prime curve of Crypto/Curves.lean (P-256, P-384, P-521, P-224, secp160r1, secp224k1, secp256k1, secp192k1)
     let oid ← attrBytes ka 0x180
-    if oid != p256Oid then none else
-    -- the public point: from CKA_EC_POINT of a public key, or d·G for a private key whose value is known, or the point of the public half of a generated pair
-    let q : Option (Nat × Nat) :=
-      match attrBytes ka 0x181 with
-      | some pt => parseP256Point pt
-      | none => match attrBytes ka CKA.VALUE with
-        | some d => P256.mul (bytesToNat d) P256.G
-        | none => (o.pub.bind (attrBytes · 0x181)).bind parseP256Point
-    q.map fun qq => ecdsaVerifyP256 qq o.inp sig
+    match curveByOid oid with
+    | none => none
+    | some c =>
+      -- the public point: CKA_EC_POINT of a public key, or d·G for a private key whose value is known, or the point of the public half of a generated pair
+      let q : Option (Nat × Nat) :=
+        match attrBytes ka 0x181 with
+        | some pt => c.parsePoint pt
+        | none => match attrBytes ka CKA.VALUE with
+          | some d => c.mul (bytesToNat d) c.G
+          | none => (o.pub.bind (attrBytes · 0x181)).bind c.parsePoint
+      q.map fun qq => c.ecdsaVerify qq o.inp sig
   else (refMac o).map (· == sig)
 
 def refDigest (o : MonOp) : Option Bytes := (hashOf o.mech).bind fun (_, hf) => if [0x210, 0x220, 0x255, 0x250, 0x260, 0x270].contains o.mech then some (hf o.inp) else none
